@@ -1,4 +1,4 @@
-HOOK_COMMITS = ["90d925a", "8940632", "5dcbe49", "0243fbe", "56c02d7"]
+HOOK_COMMITS = ["90d925a", "8940632", "5dcbe49", "0243fbe", "56c02d7", "1d7d127", "9681393", "301afe1", "c53dffa"]
 
 CHAIN_NOTE = ("Assumed: delegation.Loader.GetDelegation is a function of (loader, cid) during one check and returns a non-nil token when err == nil; "
               "time.Now() names one instant per check and After/Before compare abstract instants; fmt.Errorf returns non-nil; "
@@ -43,5 +43,13 @@ CLAIMED["C13"] = dict(
          "the patterns with a lone trailing backslash and to return the others unchanged.",
     note="Nothing assumed beyond the common base (strings are byte sequences). Not yet under contract: the `like` arm of matchStatement that feeds Match (selected node must be a string) - part of C11.",
     design="DESIGN.md §3 C13")
-for pid in ["C06","C07","C08","C09","C10","C11","C12","C14","C16","C17","C18","C19","C20"]:
+CLAIMED["C20"] = dict(
+    text="Proof of the frame condition: 58 read-only operations (token accessors, IsValidAt/IsValidNow, ExecutionAllowed / ExecutionAllowedWithArgsHook and the three verify* stages, "
+         "loadProofs, Policy.Match / PartialMatch, glob.Match, resolveSliceIndices, Args.{GetNode,Iter,ToIPLD,Equals,String,ReadOnly,Clone,Validate}, Meta.{Get*,Iter,Equals,String,ReadOnly,Clone}) "
+         "carry `assigns nothing`: for every store, map update, in-place append and every callee with a non-empty assigns set the obligation 'the written location was not allocated on entry' is discharged. "
+         "By the meta-theorem of DESIGN.md §3 C20 this gives data-race freedom and repeatability for every interleaving.",
+    note="Trusted: the frame => race-freedom meta-theorem; dependency calls on these paths (qp builders, printer.Sprint, DeepEqual, sort.Strings writes only its argument, slices.Clone returns fresh memory) write nothing reachable from their arguments; "
+         "function values passed in by the caller (iterator yield, args hook) are effect-free. Not yet under contract: ToSealed*/Encode*/toIPLD, Policy.String/ToIPLD, Selector.Select/String, DID.*, Command.Join/Segments, container.Reader getters.",
+    design="DESIGN.md §3 C20")
+for pid in ["C06","C07","C08","C09","C10","C11","C12","C14","C16","C17","C18","C19"]:
     NOT_APPLICABLE[pid] = "contracts for this property are not registered yet in this tree (work in progress; see DESIGN.md §6 staging)"
